@@ -234,6 +234,15 @@ func (cx *Ctx) ident(name string) TV {
 				return cx.constTV(o)
 			case *types.Var:
 				// global variable: load
+				if sp := cx.ex.P.pkgByPath[o.Pkg().Path()]; sp != nil {
+					if gv, ok := sp.Members[o.Name()].(*ssa.Global); ok {
+						if c := cx.ex.P.constGlobals[gv]; c != nil {
+							return TV{V: cx.ex.constVal(c), T: o.Type()}
+						}
+						l := cx.ex.ls.of(o.Type())
+						return TV{V: cx.ex.load(cx.state(), cx.ex.globAddr(gv.String()), l, "", cx.facts), T: o.Type()}
+					}
+				}
 				g := cx.ex.globAddr(o.Pkg().Path() + "." + o.Name())
 				l := cx.ex.ls.of(o.Type())
 				return TV{V: cx.ex.load(cx.state(), g, l, "", cx.facts), T: o.Type()}
@@ -972,6 +981,9 @@ func (fr *Frame) resolveName(name string) (envEnt, bool) {
 	first := true
 	for ; b != nil; b = b.Idom() {
 		instrs := b.Instrs
+		if first && fr.lookIdx > 0 && fr.lookIdx <= len(instrs) {
+			instrs = instrs[:fr.lookIdx]
+		}
 		for i := len(instrs) - 1; i >= 0; i-- {
 			switch x := instrs[i].(type) {
 			case *ssa.Phi:
